@@ -59,6 +59,7 @@ type SpecValidator struct {
 	spec          *loads.Document
 	analyzer      *analysis.Spec
 	expanded      *loads.Document
+	circular      bool // a definition is its own ancestor: no value can be validated against such a schema
 	KnownFormats  strfmt.Registry
 	Options       Opts // validation options
 	schemaOptions *SchemaValidatorOptions
@@ -104,6 +105,7 @@ func (s *SpecValidator) Validate(data interface{}) (*Result, *Result) {
 	s.spec = sd
 	s.analyzer = analysis.New(sd.Spec())
 	s.expanded = nil // never carry over the expanded spec of a previously validated document
+	s.circular = false
 
 	// Raw spec unmarshalling errors
 	var obj interface{}
@@ -156,17 +158,21 @@ func (s *SpecValidator) Validate(data interface{}) (*Result, *Result) {
 		return errs, warnings // no point in continuing
 	}
 
-	// Values provided as default MUST validate their schema
-	df := &defaultValidator{SpecValidator: s, schemaOptions: s.schemaOptions}
-	errs.Merge(df.Validate())
-	verifPhase("defaults", errs, warnings)
+	// NOTE: with a circular ancestry (already reported as an error), building a validator for the
+	// offending definition never ends: default and example values are not checked in that case
+	if !s.circular {
+		// Values provided as default MUST validate their schema
+		df := &defaultValidator{SpecValidator: s, schemaOptions: s.schemaOptions}
+		errs.Merge(df.Validate())
+		verifPhase("defaults", errs, warnings)
 
-	// Values provided as examples MUST validate their schema
-	// Value provided as examples in a response without schema generate a warning
-	// Known limitations: examples in responses for mime type not application/json are ignored (warning)
-	ex := &exampleValidator{SpecValidator: s, schemaOptions: s.schemaOptions}
-	errs.Merge(ex.Validate())
-	verifPhase("examples", errs, warnings)
+		// Values provided as examples MUST validate their schema
+		// Value provided as examples in a response without schema generate a warning
+		// Known limitations: examples in responses for mime type not application/json are ignored (warning)
+		ex := &exampleValidator{SpecValidator: s, schemaOptions: s.schemaOptions}
+		errs.Merge(ex.Validate())
+		verifPhase("examples", errs, warnings)
+	}
 
 	errs.Merge(s.validateNonEmptyPathParamNames())
 	verifPhase("pathParamNames", errs, warnings)
@@ -262,6 +268,7 @@ func (s *SpecValidator) validateDuplicatePropertyNames() *Result {
 		}
 		if len(ancs) > 0 {
 			res.AddErrors(circularAncestryDefinitionMsg(k, ancs))
+			s.circular = true
 			return res
 		}
 
